@@ -28,13 +28,13 @@ pub fn info(id: &str) -> Option<PropInfo> {
         "C05" => ("exploration", "type definitions generated from the derive grammar (named/tuple/unit structs, unit/tuple/struct variants, field / inner / phantom / const / defaulted parameters, inline bounds, where-clauses, zero_copy / deep_copy / no attribute, repr attributes, nesting of earlier definitions) x instantiations x values; oracles: the generated program compiles against the working tree (a failure is bisected to the culprit definition), every instantiation round-trips in both modes, TypeId of DeserType equals the documented substitution and SerType is the type itself; identified probe classes for shapes the statement names that the derive rejects. Non-trivial = definition with >= 1 parameter or >= 2 variants, distinct by (type, value)."),
         "C06" => ("exploration", "bytes compared with an independent reference encoder + reference hasher (compiler padding masked); golden corpus written by the pinned build re-read. Non-trivial = stream contains a tag, length prefix or block."),
         "C07" => ("exploration", "event trace of the real padding code (Align/Block): start % unit == 0, minimal all-zero gap, unit power of two >= native alignment and >= field units; returned count == bytes written == bytes consumed by both readers; exhaustive pad formula grid. Non-trivial = case with a block preceded by a gap > 0."),
-        "C08" => ("exploration", "files of generated values x loaders x 8 flag sets x move/thread scripts; oracle: loaded == eps(file bytes); borrows inside region; region alignment and zero tail. Non-trivial = structure with a non-empty borrow."),
+        "C08" => ("exploration", "files of generated values x loaders x 8 flag sets x move/thread scripts; oracle: loaded == eps(file bytes); borrows inside region; region alignment and zero tail. Non-trivial = structure with a non-empty borrow. Also: loading through a symbolic link, store after a failed store to /dev/full, sentinel sibling files and a concurrent store to the same stem, load_full from a named pipe, MemCase::encase, sparse files of about 2^31 bytes, the no-mmap build."),
         "C09" => ("fault_enumeration", "run-time: per subject a generated value with borrowed payloads inflated to >= 300 KB; failure causes {bad magic, major version, wrong type hash, wrong alignment hash, truncated header, truncated value, foreign tag, missing file} x loaders {load_full, load_mem, load_mmap, mmap} x 5 repetitions after a warm-up: live heap bytes (tracking allocator), file mappings (/proc/self/maps) and address-space size (/proc/self/statm) must return to the previous level; successful loads moved/boxed/dropped likewise. Compile-time: a family of probe programs per access path (eps result past the buffer's scope / returned / required 'static / sent to a thread; MemCase contents copied out through Deref, AsRef, field or element copy for each loader) that must not compile, each with a positive twin. Non-trivial = (cause, loader) pair or negative probe."),
-        "C10" => ("fault_enumeration", "per generated stream: every single-bit flip of the 29 fixed header bytes, reversed cookie, minor version classes, both modes; oracle: field -> exact error variant and payload. Non-trivial = every mutation (distinct by subject, value, mutation)."),
-        "C11" => ("fault_enumeration", "per generated stream: every cut point k in [0,len) (sampled for long streams) x {full, load_full, eps on exact prefix, mmap}; oracle: ReadError / error-or-bounds-panic, never a value. Non-trivial = cut inside the value part."),
-        "C12" => ("exploration", "per generated stream: all base residues 0..127; oracle: success iff every block the deserializer meets lands on a multiple of its unit (prediction from the serializer's align events), else AlignmentError; borrows aligned. Non-trivial = residue predicted to fail, or a sibling pair with different block sets."),
+        "C10" => ("fault_enumeration", "per generated stream: every single-bit flip of the 29 fixed header bytes, reversed cookie, minor version classes, both modes; oracle: field -> exact error variant and payload. Non-trivial = every mutation (distinct by subject, value, mutation). The same flips on a header of minor version 0; the reversed cookie and four generated mutations stored in a file through the four loaders."),
+        "C11" => ("fault_enumeration", "per generated stream: every cut point k in [0,len) (sampled for long streams) x {full, load_full, eps on exact prefix, mmap}; oracle: ReadError / error-or-bounds-panic, never a value. Non-trivial = cut inside the value part. Stored files with intact sibling copies under backup-like names; files of 1.1 / 2.4 MiB with zero tails cut at each of the last 72 bytes under load_full and mmap with six flag sets; repeated in a build without debug assertions."),
+        "C12" => ("exploration", "per generated stream: all base residues 0..127; oracle: success iff every block the deserializer meets lands on a multiple of its unit (prediction from the serializer's align events), else AlignmentError; borrows aligned. Non-trivial = residue predicted to fail, or a sibling pair with different block sets. Units above 128: placements at multiples of 64 up to twice the unit; repeated with every environment variable the library reads set to 1, and in a build without debug assertions."),
         "C13" => ("fault_enumeration", "per generated value: persistent fail@k, one-shot fail@k and Ok(0)@k for every k in [0,len] (sampled above the budget), flush failure, split and interrupted schedules, plain and BufWriter sinks, /dev/full; the same through serialize_with_schema and serialize_on_field_write; sources behind &[T], SerIter and generic wrappers of them; oracle: Err(WriteError), accepted bytes are a prefix, split/retry sinks get exact bytes, no allocation that existed before the call is freed (protected epoch of the tracking allocator), source intact. Non-trivial = 0 < k < len."),
-        "C14" => ("fault_enumeration", "per generated stream: chunked / 1-byte / interrupted readers and fail@k for every k in [0,len); oracle: same value / Err(ReadError), no panic, no foreign free. Non-trivial = failure inside the value part or fragmented read of a stream with a sequence."),
+        "C14" => ("fault_enumeration", "per generated stream: chunked / 1-byte / interrupted readers and fail@k for every k in [0,len); oracle: same value / Err(ReadError), no panic, no foreign free. Non-trivial = failure inside the value part or fragmented read of a stream with a sequence. One-shot WouldBlock / TimedOut faults followed by more data; payloads above 1 MiB; readers that use the library inside read() (watchdog)."),
         "C15" => ("exploration", "every tag site of every generated stream x every foreign tag value (all bytes / boundary usize values), both modes; every variant round-trips. Non-trivial = foreign tag injection (distinct by subject, value, site, tag)."),
         "C18" => ("exploration", "schema recording vs plain bytes; row invariants (pre-order, containment, leaf tiling, zero padding, aligned blocks); the same with the SchemaWriter layered on a writer that has already written a 3/8/13-byte prefix; to_csv/debug. Non-trivial = schema with a composite having >= 2 children and a padding row."),
         "C16" => ("exploration", "every subject of the form Vec<E> (zero-copy and deep E) x generated item sequences incl. empty: streams of &[E], SerIter (zero-copy E), and both nested in one- and two-parameter generic structs compared byte-for-byte (same source memory) with the vector's stream, header included; slice stream deserialized as the vector in both modes; lying iterators for all (announced, actual) in 0..8 x {standalone, nested}; writer faults with borrowed sources (no foreign free). Non-trivial = non-empty sequence, or announced != actual."),
